@@ -7,6 +7,7 @@ import (
 
 	"github.com/goccy/go-json/internal/encoder"
 	"github.com/goccy/go-json/internal/runtime"
+	"github.com/goccy/go-json/internal/verifhook"
 )
 
 const uintptrSize = 4 << (^uintptr(0) >> 63)
@@ -42,16 +43,19 @@ func errUnimplementedOp(op encoder.OpType) error {
 }
 
 func load(base uintptr, idx uint32) uintptr {
+	verifhook.Slot(base, idx, false)
 	addr := base + uintptr(idx)
 	return **(**uintptr)(unsafe.Pointer(&addr))
 }
 
 func store(base uintptr, idx uint32, p uintptr) {
+	verifhook.Slot(base, idx, true)
 	addr := base + uintptr(idx)
 	**(**uintptr)(unsafe.Pointer(&addr)) = p
 }
 
 func loadNPtr(base uintptr, idx uint32, ptrNum uint8) uintptr {
+	verifhook.Slot(base, idx, false)
 	addr := base + uintptr(idx)
 	p := **(**uintptr)(unsafe.Pointer(&addr))
 	for i := uint8(0); i < ptrNum; i++ {
